@@ -5,7 +5,7 @@
    and `relast` what the tokenizer does to LastTokenType afterwards. *)
 From Coq Require Import List ZArith Bool Lia.
 Import ListNotations.
-Require Import Base Cursor Tokenizer Instance TokModel RunC05.
+Require Import Base Cursor Tokenizer Instances Instance TokModel RunC05 InstanceLink.
 Open Scope Z_scope.
 
 (* After SetReader, whatever state i the instance was left in by ANY earlier history (cached look-ahead, aborted
@@ -27,6 +27,27 @@ Theorem C05_has_next_queries_do_not_matter :
     observe M plc produce decode o enter relast calls (set_reader M i s) = Tokenizer.Ok (expected (nexts calls) ts).
 Proof. exact history_independent. Qed.
 
+(* The stream of the instance IS what TokenizeBuffer returns on a fresh tokenizer: for the generic, expression and CSV
+   tokenizers (any separators / quotes), any options, any input, any earlier history of the instance (i is an
+   arbitrary instance state) and any interleaving of HasNextToken / NextToken, the i-th NextToken returns the i-th
+   token of TokenizeBuffer(s), then nil. *)
+Theorem C05_reused_tokenizer_returns_the_tokens_of_a_fresh_one : forall k, plain_kind k -> forall o s ts, tokenize_with k o s = Tokenizer.Ok ts ->
+  forall calls,
+  match k with
+  | TGeneric => forall i, observe unit plcf (produce lcf plcf generic_cfg) decode_generic o enter_plain relast_plain calls (set_reader unit i s) = Tokenizer.Ok (expected (nexts calls) ts)
+  | TExpr => forall i, observe unit plcf (produce lcf plcf expr_cfg) decode_doubled o enter_plain relast_plain calls (set_reader unit i s) = Tokenizer.Ok (expected (nexts calls) ts)
+  | TCsv seps quotes => forall i, observe unit plcf (produce lcf plcf (csv_cfg seps quotes)) decode_doubled o enter_plain relast_plain calls (set_reader unit i s) = Tokenizer.Ok (expected (nexts calls) ts)
+  | TMustache => True
+  end.
+Proof. exact builtin_reuse. Qed.
+
+(* The mustache tokenizer (text/tag mode carried between calls): for every input there is ONE token list that every
+   earlier history and every interleaving observes. *)
+Theorem C05_mustache_tokenizer_history_independent : forall o s, wf_str s ->
+  exists ts, forall (i : inst bool) calls,
+    observe bool plcf mustache_produce decode_generic o enter_mustache relast_mustache calls (set_reader bool i s) = Tokenizer.Ok (expected (nexts calls) ts).
+Proof. exact mustache_history_independence. Qed.
+
 (* the premise holds for the four built-in tokenizers: the plain ones have no mode, the mustache tokenizer
    re-enters text mode whenever LastTokenType is Unknown *)
 Theorem C05_builtin_tokenizers_reinitialise :
@@ -45,4 +66,6 @@ Proof. vm_compute. reflexivity. Qed.
 
 Print Assumptions C05_reused_instance_equals_fresh.
 Print Assumptions C05_has_next_queries_do_not_matter.
+Print Assumptions C05_reused_tokenizer_returns_the_tokens_of_a_fresh_one.
+Print Assumptions C05_mustache_tokenizer_history_independent.
 Print Assumptions C05_builtin_tokenizers_reinitialise.
